@@ -31,6 +31,8 @@ def main():
         dispatch(mod, sc, emit)
     elif sc["mode"] == "objects":
         objects(mod, sc, emit)
+    elif sc["mode"] == "helpers":
+        helpers(mod, sc, emit)
     elif sc["mode"] == "names":
         names(mod, sc, emit)
     emit({"done": True})
@@ -145,6 +147,139 @@ def objects(mod, sc, emit):
         w = None
         gc.collect()
         emit({"h": h["id"], "obs": obs, "end": [P.made() - base[0], P.died() - base[1]], "dlog": P.take_dlog()})
+
+
+PROP = {"seq": "vals", "mseq": "mvals", "copies": "copies", "map": "named", "mmap": "mnamed", "bound": "get_val"}
+
+
+def helpers(mod, sc, emit):
+    """histories over wrappers AND the helper objects the runtime creates (PyObjectsH).  After every
+    step: ownership bits / identity / reference count (relative to its creation) of every usable
+    wrapper, the instance counters, and read-only probes on every usable helper, each with the
+    counter and reference-count deltas it caused."""
+    P = mod.Probe
+    N = mod.Node
+    for hst in sc["histories"]:
+        emit({"at": ["h", hst["id"]]})
+        P.reset()
+        pn = N()                      # the needle of the search probes (not part of the history)
+        base = [P.made(), P.died()]
+        off = [0, 0]                  # constructions / destructions caused by probes and temporaries
+        w, h, rc0 = {}, {}, {}
+        obs = []
+
+        def counters():
+            return [P.made() - base[0] - off[0], P.died() - base[1] - off[1]]
+
+        def tmp_value(x):
+            """value of an item; a by-value Node item is a temporary: read it and let it go"""
+            if isinstance(x, N):
+                m0, d0 = P.made(), P.died()
+                v = x.get_val(0)
+                del x
+                off[0] += 1           # it was constructed by the operation that returned it
+                off[1] += P.died() - d0
+                return v
+            return x
+
+        for st in hst["steps"]:
+            op, a, b = st["op"], st["a"], st["b"]
+            exc, val = None, None
+            try:
+                if op == "PyConstruct":
+                    w[a] = N()
+                    rc0[a] = sys.getrefcount(w[a])
+                elif op == "ReturnBorrowed":
+                    w[a] = w[b].child()
+                    rc0[a] = sys.getrefcount(w[a])
+                elif op == "ReturnConstRef":
+                    w[a] = w[b].cchild()
+                    rc0[a] = sys.getrefcount(w[a])
+                elif op == "DropWrapper":
+                    del w[a]
+                elif op == "EvalProperty":
+                    h[a] = getattr(w[b], PROP[st["kind"]])
+                elif op == "EvalKeys":
+                    h[a] = h[b].keys()
+                elif op == "Iter":
+                    h[a] = iter(h[b])
+                elif op == "IterNext":
+                    val = tmp_value(next(h[a]))
+                elif op == "SetItem":
+                    if st["kind"] in ("map", "mmap"):
+                        h[a]["a"] = st["val"]
+                    else:
+                        h[a][0] = st["val"]
+                elif op == "DropHelper":
+                    del h[a]
+            except BaseException as e:          # noqa
+                exc = type(e).__name__
+            rec = {"exc": exc, "val": val, "cnt": counters(),
+                   "w": {k: owner(w[k]) + [w[k].get_id(), sys.getrefcount(w[k]) - rc0[k], list(w[k].get_vals())]
+                         for k in st["usable_w"] if k in w}}
+            probes = {}
+            for k, kind, ro in st["usable_h"]:
+                if k not in h:
+                    continue
+                x = h[k]
+                r = {}
+                c0 = [P.made(), P.died()]
+                rcs0 = {q: sys.getrefcount(w[q]) for q in st["usable_w"] if q in w}
+                try:
+                    if kind in ("seq", "mseq", "copies"):
+                        r["len"] = len(x)
+                        r["items"] = [tmp_value(x[i]) for i in range(3)]
+                        if kind == "copies":
+                            r["search"] = [pn in x, x.count(pn)]
+                            try:
+                                x.index(pn)
+                                r["search"].append("found")
+                            except ValueError:
+                                r["search"].append("ValueError")
+                        else:
+                            r["search"] = [1002 in x, x.count(1001), x.index(1002)]
+                    elif kind in ("map", "mmap"):
+                        r["len"] = len(x)
+                        r["items"] = [x["a"], x.get("b"), x.get("z", 7)]
+                        r["has"] = ["a" in x, "z" in x]
+                        r["views"] = [list(x.keys()), list(x.values()), [list(t) for t in x.items()]]
+                        try:
+                            x["z"]
+                            r["missing"] = None
+                        except BaseException as e:          # noqa
+                            r["missing"] = type(e).__name__
+                    elif kind == "keys":
+                        r["len"] = len(x)
+                        r["items"] = [x[i] for i in range(3)]
+                        r["has"] = ["a" in x, "z" in x]
+                    elif kind == "bound":
+                        r["items"] = [x(0), x(1), x(2)]
+                    if ro and kind != "bound":
+                        try:
+                            if kind in ("map", "mmap"):
+                                x["a"] = 5
+                            else:
+                                x[0] = 5
+                            r["ro"] = None
+                        except BaseException as e:          # noqa
+                            r["ro"] = type(e).__name__
+                except BaseException as e:          # noqa
+                    r["exc"] = type(e).__name__ + ": " + str(e)[:80]
+                x = None
+                c1 = [P.made(), P.died()]
+                # temporaries accounted by tmp_value are already in off; what remains is the probe's own
+                r["made"], r["died"] = c1[0] - c0[0], c1[1] - c0[1]
+                r["drc"] = {q: sys.getrefcount(w[q]) - v for q, v in rcs0.items()}
+                probes[k] = r
+            # probes (and their leaks, if any) must not disturb the accounting of the history
+            mk = [P.made() - base[0], P.died() - base[1]]
+            off[0], off[1] = mk[0] - rec["cnt"][0], mk[1] - rec["cnt"][1]
+            rec["probes"] = probes
+            obs.append(rec)
+        w = h = x = None
+        gc.collect()
+        emit({"h": hst["id"], "obs": obs, "end": counters(), "dlog": P.take_dlog()})
+        pn = None
 
 
 def names(mod, sc, emit):
